@@ -147,8 +147,11 @@ def sort_cases(run, n):
         except Exception as e:  # noqa: BLE001
             io = {"err": type(e).__name__ + ": " + str(e)[:200]}
         if io != mo["rows"]:
-            # is the implementation's result at least sorted and a permutation? (the property's own predicate)
-            run.disagree(case, mo["rows"], io)
+            has_nan = any(c is not None and "nan" in c[1] for r in op["rows"] for c in r)
+            if has_nan and run.known("D-C14b"):
+                run.count("known:D-C14b")
+            else:
+                run.disagree(case, mo["rows"], io)
 
 
 def graph_cases(run, n):
@@ -196,9 +199,33 @@ def graph_cases(run, n):
                 return
 
 
+NAN_DOC = '''<?xml version="1.0" encoding="utf-8"?>
+<UANodeSet xmlns="http://opcfoundation.org/UA/2011/03/UANodeSet.xsd"><NamespaceUris><Uri>urn:nan</Uri></NamespaceUris>
+<Models><Model ModelUri="urn:nan"/></Models><Aliases/>
+<UAVariable NodeId="ns=1;i=1" BrowseName="1:v" DataType="i=11"><DisplayName>v</DisplayName><References><Reference ReferenceType="i=40">i=63</Reference></References><Value><Double xmlns="http://opcfoundation.org/UA/2008/02/Types.xsd">NaN</Double></Value></UAVariable>
+<UAVariable NodeId="ns=1;i=2" BrowseName="1:v" DataType="i=11"><DisplayName>v</DisplayName><References><Reference ReferenceType="i=40">i=63</Reference></References><Value><Double xmlns="http://opcfoundation.org/UA/2008/02/Types.xsd">NaN</Double></Value></UAVariable>
+</UANodeSet>'''
+
+
+def nan_witness(run):
+    """finding D-C14b: two rows that tie on every column before Value and hold NaN values are ordered by their input order"""
+    from opcua_tools import UAGraph
+    with minibase.Scratch() as sc:
+        d = sc.write(sc.sub("n"), {"n.xml": NAN_DOC})
+        g = UAGraph.from_path(d)
+    t1 = g.get_normalized_nodes_df("urn:nan")
+    g2 = UAGraph(nodes=g.nodes.iloc[::-1].reset_index(drop=True).copy(), references=g.references.copy(),
+                 namespaces=list(g.namespaces), models=list(g.models))
+    t2 = g2.get_normalized_nodes_df("urn:nan")
+    run.case({"witness": "D-C14b"}, tag="witness")
+    if t1.astype(str).values.tolist() != t2.astype(str).values.tolist():
+        run.known("D-C14b")
+
+
 def explore(run):
     rng = run.rng
     thorough = run.tier == "thorough"
+    nan_witness(run)
     order_cases(run, pool(rng, 300 if thorough else 60))
     if run.full():
         return
